@@ -344,5 +344,4 @@ func checkC01(res *Result, fo *fedOp) {
 	}
 }
 
-
 var _ = sort.Strings
